@@ -97,6 +97,8 @@ def source(case):
 
 
 def describe(case):
+    if case['kind'] == 'fmt':
+        return "book, chapter=2 section=3 equation=12: context.newcounter('zz', format=%r, trimLeft=%r); zz=7; \\thezz" % (case['fmt'], bool(case['trim']))
     if case['kind'] == 'repr':
         return 'Counter(value=%d).%s' % (case['v'], case['r'])
     return 'sec-num-depth=%d\n%s' % (case['depth'], source(case))
@@ -140,6 +142,8 @@ def ev_wire(e):
 
 
 def model_input(case):
+    if case['kind'] == 'fmt':
+        return [101, 1 if case['trim'] else 0, S(case['fmt'])]
     if case['kind'] == 'repr':
         return [100, REPRS[case['r']], case['v']]
     return [case['cls'], case['depth'], [ev_wire(e) for e in case['events']]]
@@ -191,6 +195,21 @@ def run_impl(case):
             return [-2, 2]
     import texrun
     from plasTeX.Base.LaTeX.Lists import List
+    if case['kind'] == 'fmt':
+        doc, tex = texrun.parse('\\documentclass{book}\\begin{document}\\setcounter{chapter}{2}\\setcounter{section}{3}'
+                                '\\setcounter{equation}{12}\\end{document}')
+        doc.context.newcounter('zz', format=case['fmt'], trimLeft=bool(case['trim']))
+        doc.context.counters['zz'].setcounter(7)
+        try:
+            return [0, S(doc.createElement('thezz').expand(tex).textContent)]
+        except IndexError:
+            return [-2, 1]
+        except (AttributeError, TypeError):
+            # getattr(counter, attr) for an attr that is not one of the six string properties: AttributeError, or an
+            # attribute that is not a string (value, name, a method ...) handed to re.sub: TypeError
+            return [-2, 2]
+        except RecursionError:
+            return [-3]
     List.depth = 0      # class-level state that survives a document (C17's finding): start every case from the initial value
     depth = case['depth']
 
@@ -267,9 +286,14 @@ def spec_diff(io, so):
 
 
 def judge(case, io, mo):
-    if not (isinstance(mo, list) and len(mo) == 2):
+    if case['kind'] != 'fmt' and not (isinstance(mo, list) and len(mo) == 2):
         return dict(violation=False, key='C08:model-bad-input', what='model rejected the case: %s' % (mo,))
-    m, s = mo
+    m, s = mo if case['kind'] != 'fmt' else (mo, None)
+    if case['kind'] == 'fmt':
+        if io == m or (m == [-3] and io[:1] == ['hang']):
+            return None
+        return dict(violation=False, key='C08:format-parse', what='\\thezz: implementation %s, Model %s' % (
+            repr(unS(io[1])) if io[:1] == [0] else io, repr(unS(m[1])) if m[:1] == [0] else m))
     if case['kind'] == 'repr':
         if io == m:
             return None
@@ -311,12 +335,16 @@ def judge(case, io, mo):
 
 
 def nontrivial(case, io):
+    if case['kind'] == 'fmt':
+        return '$' in case['fmt']
     if case['kind'] == 'repr':
         return case['v'] >= 1
     return len(case['events']) >= 4
 
 
 def tags(case, io):
+    if case['kind'] == 'fmt':
+        return ['fmt'] + (['impl-raises'] if isinstance(io, list) and io[:1] != [0] else [])
     if case['kind'] == 'repr':
         return ['repr:' + case['r']]
     t = ['class=' + ('article' if case['cls'] == 0 else 'book'), 'depth=%d' % case['depth'], 'nesting=%d' % max_nesting(case)]
@@ -531,8 +559,14 @@ def malformed(rng):
             # lists left open at the end of the document
             while ev and ev[-1][0] == 'end':
                 ev.pop()
-        else:
+        elif x < 0.9:
             ev.insert(pos, ['set', rng.choice(ENUMS), rng.randint(0, 5)])
+        else:
+            # names that are not \\w+ or not letters: the format built from them is parsed by the same two regular expressions
+            nm = rng.choice(['my-thm', 'thm2', 'a_b', 'x.y', 'a b'])
+            ev.insert(pos, ['newthm', nm, None, rng.choice([None, 'section', 'equation']), False])
+            ev.insert(pos + 1, ['thm', nm])
+            ev.insert(pos + 2, ['thm', nm])
     return case
 
 
@@ -591,6 +625,7 @@ def streams(rng, tier, boost):
         out.append(('malformed', malformed(rng)))
     for _ in range((40 if quick else 300) * boost):
         out.append(('deep-lists', deep_lists(rng)))
+    out += format_cases(rng, quick, boost)
     return out
 
 
@@ -625,8 +660,38 @@ def _balanced(ev):
     return d == 0
 
 
+FMT_TOKENS = ['$', '{', '}', '.', ' ', '\t', 'zz', 'section', 'thesection', 'thechapter', 'thezz', 'x', 'Roman', 'roman', 'alph', 'arabic',
+              'Alph', 'fnsymbol', 'bogus', 'value', '-', '0.', 'a', '${', '${zz}', '$zz', '_', '9']
+FMT_SMALL = ['$', '{', '}', '.', ' ', 'zz', 'alph', 'the']
+
+
+def format_cases(rng, quick, boost):
+    out = []
+    # exhaustive: every string of up to 4 (5) tokens of the small alphabet
+    for n in range(0, (5 if quick else 6)):
+        for t in itertools.product(FMT_SMALL, repeat=n):
+            out.append(('format-exhaustive', dict(kind='fmt', fmt=''.join(t), trim=0)))
+    # the character classes \\w and \\s, every ASCII code point (TeX-special characters excepted: they do not survive
+    # textTokens/textContent unchanged and are not part of any format)
+    for c in range(1, 128):
+        ch = chr(c)
+        if ch in '\\%#&~^_{}$\r\n' or c == 0:
+            continue
+        out.append(('format-exhaustive', dict(kind='fmt', fmt='${' + ch + 'zz}', trim=0)))
+        out.append(('format-exhaustive', dict(kind='fmt', fmt='$z' + ch + '|${zz' + ch + '}', trim=0)))
+    for _ in range((400 if quick else 6000) * boost):
+        k = rng.randint(1, 9)
+        out.append(('format-random', dict(kind='fmt', fmt=''.join(rng.choice(FMT_TOKENS) for _ in range(k)), trim=rng.randint(0, 1))))
+    return out
+
+
 def shrink(case):
     """delta-debugging order: drop large chunks first (keeping lists well nested), then single events, then simplify events"""
+    if case['kind'] == 'fmt':
+        f = case['fmt']
+        for i in range(len(f)):
+            yield dict(case, fmt=f[:i] + f[i + 1:])
+        return
     if case['kind'] != 'doc':
         return
     ev = case['events']
